@@ -94,6 +94,8 @@ fn main() {
     let code = match cmd.as_str() {
         "c01" => tmon::c01::run(&ctx),
         "c02" => tmon::c02::run(&ctx),
+        "c05" => tmon::c05::run(&ctx),
+        "c06" => tmon::c06::run(&ctx),
         _ => {
             let _ = rest;
             usage()
